@@ -214,6 +214,48 @@ mutant("C18", "restrict-vertex-map-unsorted", MESH,
        note="returned vertex index map reversed")
 
 
+# ------------------------------------------------------------------ C17
+MIO = "skfem/io/meshio.py"
+mutant("C17", "hex-inverse-map-not-inverse", MIO,
+       "        t = t[INV_HEX_MAPPING[:8]]\n",
+       "        t = t[HEX_MAPPING[:8]]\n",
+       note="import applies the export permutation again instead of its inverse")
+mutant("C17", "decode-bitmask-shifted", MESH,
+       "                    (1 << np.arange(self.refdom.nfacets))[:, None]\n                    & data[0].astype(np.int32)\n",
+       "                    (1 << np.arange(1, self.refdom.nfacets + 1))[:, None]\n                    & data[0].astype(np.int32)\n",
+       note="facet slot bits read one position off")
+mutant("C17", "owner-cell-ignores-orientation", MESH,
+       "            columns = self.f2t[(b.ori, b)]\n",
+       "            columns = self.f2t[(0 * b.ori, b)]\n",
+       note="oriented facets always encoded in their first cell")
+mutant("C17", "write-errors-swallowed", MIO,
+       "    meshio.write(path,\n                 to_meshio(mesh,\n                           point_data,\n                           cell_data,\n                           encode_cell_data,\n                           encode_point_data),\n                 **kwargs)\n",
+       "    try:\n        meshio.write(path,\n                     to_meshio(mesh,\n                               point_data,\n                               cell_data,\n                               encode_cell_data,\n                               encode_point_data),\n                     **kwargs)\n    except OSError:\n        logger.warning('Failure to write the mesh.')\n",
+       note="a failed write is logged and save returns normally: only a "
+            "fault-injecting run can see it")
+mutant("C17", "to-dict-drops-last-subdomain", MESH,
+       "            subdomains = {k: v.tolist() for k, v in self.subdomains.items()}\n",
+       "            subdomains = {k: v.tolist() for k, v in list(self.subdomains.items())[:-1]}\n" if False else
+       "            subdomains = {k: v.tolist()[:-1] if len(v) > 3 else v.tolist() for k, v in self.subdomains.items()}\n",
+       note="last cell of larger subdomains not serialised")
+mutant("C17", "npz-prefixes-swapped", MESH,
+       "                for key in data.files\n                if key[:2] == 's_'\n",
+       "                for key in data.files\n                if key[:2] in ('s_', 'o_')\n",
+       note="orientation arrays also read as subdomains")
+mutant("C17", "points-read-as-float32", MIO,
+       "    p = np.ascontiguousarray(mesh_type.strip_extra_coordinates(m.points).T)\n",
+       "    p = np.ascontiguousarray(mesh_type.strip_extra_coordinates(m.points).T.astype(np.float32))\n",
+       note="coordinates lose precision on import")
+mutant("C17", "msh-default-format-22", MIO,
+       "        kwargs.update({'file_format': 'gmsh'})\n",
+       "        kwargs.update({'file_format': 'gmsh22'})\n",
+       expect="clean", note="another (equally valid) default gmsh version")
+mutant("C17", "json-file-not-closed-on-error", "skfem/io/json.py",
+       "    with open(filename, 'w') as handle:\n        json.dump(mesh.to_dict(), handle)\n",
+       "    handle = open(filename, 'w')\n    try:\n        json.dump(mesh.to_dict(), handle)\n        handle.close()\n    except OSError:\n        pass\n",
+       note="write errors of the JSON form swallowed: only fault runs see it")
+
+
 def revert_mutants(out_root, index):
     """Each repaired defect, reverted, is a mutant the check must catch."""
     import subprocess
@@ -239,8 +281,11 @@ def revert_mutants(out_root, index):
         os.makedirs(p, exist_ok=True)
         with open(os.path.join(p, name + ".diff"), "w") as f:
             f.write(diff)
+        # F5a: after F4/F5b no class drops subdomains any more, so the
+        # warning it repairs is unreachable and its revert is unobservable
         index.append({"prop": d["property"], "name": name, "file": "(revert)",
-                      "expect": "violation", "note": d["what"]})
+                      "expect": "clean" if d.get("tag") == "F5a"
+                      else "violation", "note": d["what"]})
 
 
 def main():
